@@ -1,7 +1,28 @@
-import RxModel.Sched.Chain
+import RxModel.Lemmas.ChainFifoObs
+import RxModel.Lemmas.ChainFifoDelayMain
 /-
   C07 — Scheduler-moving operators preserve the source's sequence.
-  (theorems are added below as they are proved; see DESIGN §6 C07)
+
+  Proved here, over the chain model of Sched/Chain.lean (validated against the
+  crate by the `time` suite), for ALL event histories of the FIFO-only executor:
+  * `C07_fire_only_due`           a legal executor never fires a timer early;
+  * `C07_observeOn_fifo`          FIFO clause for `observe_on` over a hot source;
+  * `C07_delay_fifo`              `delay d`: the log is EXACTLY the closed form `Del.Ghost.log`
+                                   (stamped gated script, delivered = armed-at + d ≤ clock of the
+                                   latest `run`, an error is forwarded at once and cuts off the rest);
+  * `C07_delay_order`             … hence a prefix of the gated script (then the error if it failed);
+  * `C07_delay_after_run`         … and right after a `run` everything whose delay is over;
+  * `C07_delay_prompt_fifo`       … for a prompt executor (`run` after every emission): exactly the
+                                   notifications with emission clock + d ≤ clock;
+  * `C07_delay0_fifo`             `delay 0` = `observe_on` on unfailed scripts;
+  * `C07_delay_never_early`       nothing is delivered earlier than `d` after its emission;
+  * `C07_reorder_counterexample`  the clause FAILS for an executor that runs ready tasks in
+                                   another order (known finding, replayed on the real code).
+  Vocabulary (Lemmas/ChainFifoBase.lean): `FifoEv` = emit (any subject, any notification, also
+  after a terminal) / adv / run (= `TW.runLoop`, fuel 10000: proved never to be exhausted, two
+  passes suffice); `script evs` = the notifications emitted on subject 0 in `evs`; `gate`
+  (Core/Notif.lean) = everything up to and including the first terminal.
+  No `fire` / `poll` / `unsub` events; one stage; hot source.
 -/
 namespace Rx.T
 
@@ -14,5 +35,157 @@ theorem C07_fire_only_due (s : Sched) (tm : TimerId) (h : tm ∈ s.dueTimers) :
   cases ht : s.timers[tm]? with
   | none => simp [ht] at h2
   | some t => simp [ht] at h2; exact ⟨t, rfl, h2.2⟩
+
+/-! ### observe_on -/
+
+/-- `observe_on` over the hot subject 0, nothing subscribed yet. -/
+def C07_observeOn_world : TW := { src := .hot 0, stages := [.observeOn true (some [])] }
+
+/-- FIFO clause for `observe_on` under the FIFO executor: after `sub` and ANY list of
+    emissions (any notifications, also after a terminal), clock advances and `run`s, the probe
+    has received a prefix of the gated script (the source's items in the source's order, then
+    its terminal, nothing after it); and right after a `run` it has received ALL of it. -/
+theorem C07_observeOn_fifo (evs : List TW.Ev) (h : ∀ e ∈ evs, FifoEv e) :
+    (evs.foldl TW.step (C07_observeOn_world.step .sub)).log <+: gate (script evs) ∧
+    (∀ evs', evs = evs' ++ [TW.Ev.run] →
+      (evs.foldl TW.step (C07_observeOn_world.step .sub)).log = gate (script evs)) := by
+  refine ⟨Obs.fifo_prefix evs h, ?_⟩
+  rintro evs' rfl
+  exact Obs.fifo_all evs' (fun e he => h e (List.mem_append_left _ he))
+
+/-- Non-vacuity: two items and the completion, time advances, `run`. -/
+example :
+    ([TW.Ev.sub, .emit 0 (.next (.int 1)), .emit 0 (.next (.int 2)), .adv 3, .emit 0 .complete,
+      .emit 0 (.next (.int 9)), .run].foldl TW.step C07_observeOn_world).log
+      = [.next (.int 1), .next (.int 2), .complete] := by decide
+
+/-- Nothing is delivered before the executor runs. -/
+example :
+    ([TW.Ev.sub, .emit 0 (.next (.int 1)), .emit 0 (.next (.int 2)), .adv 3].foldl TW.step
+      C07_observeOn_world).log = [] := by decide
+
+/-- NEGATIVE result for arbitrary executors (the property's last sentence): if the executor
+    polls the second task first (`poll 1`), the items arrive in the opposite order.  Order is
+    NOT preserved under a non-FIFO run order. -/
+theorem C07_reorder_counterexample :
+    ([TW.Ev.sub, .emit 0 (.next (.int 1)), .emit 0 (.next (.int 2)), .poll 1, .run].foldl TW.step
+      C07_observeOn_world).log = [.next (.int 2), .next (.int 1)] := by decide
+
+/-! ### delay -/
+
+/-- `delay d` over the hot subject 0, nothing subscribed yet. -/
+def C07_delay_world (d : Nat) : TW := { src := .hot 0, stages := [.delay d true (some [])] }
+
+/-- What the model does, exactly.  `Del.ghost evs` stamps the gated script with clock values
+    (`te` = clock at emission, `ta` = clock at the first `run` after the emission: the task's
+    first poll, when the delay timer is created, due at `ta + d`; `horizon` = clock at the
+    latest `run`, frozen once the source has failed).  After ANY history the log is: the stamps
+    with `ta + d ≤ horizon`, in script order, then the error if the source failed (`delay`
+    forwards an error at once and closes its slot: the items still pending are cut off); the
+    stamped notifications plus that error are the gated script; the model clock is the ghost clock. -/
+theorem C07_delay_fifo (d : Nat) (evs : List TW.Ev) (h : ∀ e ∈ evs, FifoEv e) :
+    (evs.foldl TW.step ((C07_delay_world d).step .sub)).log =
+        ((Del.ghost evs).q.filter (Del.Stamp.delivered d (Del.ghost evs).horizon)).map (·.n)
+          ++ (Del.ghost evs).errPart ∧
+    (Del.ghost evs).q.map (·.n) ++ (Del.ghost evs).errPart = gate (script evs) ∧
+    (evs.foldl TW.step ((C07_delay_world d).step .sub)).sched.now = (Del.ghost evs).clock :=
+  ⟨(Del.delay_log d evs h).1, (Del.GI_ghost evs h).gate, (Del.delay_log d evs h).2⟩
+
+/-- Order: the log is a prefix of the gated script — or, when the source has failed, such a
+    prefix followed by the script's error. -/
+theorem C07_delay_order (d : Nat) (evs : List TW.Ev) (h : ∀ e ∈ evs, FifoEv e) :
+    ∃ pre, pre <+: gate (script evs) ∧
+      ((evs.foldl TW.step ((C07_delay_world d).step .sub)).log = pre ∨
+       ∃ e, (gate (script evs)).getLast? = some (.error e) ∧
+         (evs.foldl TW.step ((C07_delay_world d).step .sub)).log = pre ++ [.error e]) :=
+  Del.delay_order d evs h
+
+/-- Right after a `run`, source not failed: every notification of the gated script has its
+    timer armed (`ta = some _`) and exactly those with `ta + d ≤ clock` have been delivered. -/
+theorem C07_delay_after_run (d : Nat) (evs : List TW.Ev) (h : ∀ e ∈ evs, FifoEv e)
+    (he : (Del.ghost (evs ++ [TW.Ev.run])).err = none) :
+    ((evs ++ [TW.Ev.run]).foldl TW.step ((C07_delay_world d).step .sub)).log =
+      ((Del.ghost (evs ++ [TW.Ev.run])).q.filter
+        (Del.Stamp.delivered d (Del.ghost (evs ++ [TW.Ev.run])).clock)).map (·.n) ∧
+    (Del.ghost (evs ++ [TW.Ev.run])).q.map (·.n) = gate (script (evs ++ [TW.Ev.run])) ∧
+    ∀ st ∈ (Del.ghost (evs ++ [TW.Ev.run])).q, st.ta ≠ none := by
+  have hall : ∀ e ∈ evs ++ [TW.Ev.run], FifoEv e := by
+    intro e h'
+    rcases List.mem_append.mp h' with h' | h'
+    · exact h e h'
+    · simp only [List.mem_singleton] at h'; subst h'; exact .run
+  obtain ⟨h1, h2, _⟩ := C07_delay_fifo d _ hall
+  obtain ⟨h3, h4⟩ := Del.after_run evs he
+  refine ⟨?_, ?_, h4⟩
+  · rw [h1, h3]; simp [Del.Ghost.errPart, he]
+  · rw [← h2]; simp [Del.Ghost.errPart, he]
+
+/-- The clause as the property words it ("never earlier than the configured delay after it was
+    produced", and everything whose delay is over has arrived), for a PROMPT executor (`run` right
+    after every emission, so each timer is armed at the emission clock): right after a `run`,
+    source not failed, the log is exactly the notifications of the gated script whose emission
+    clock `te` satisfies `te + d ≤ clock`, in script order.  (Without promptness the delay counts
+    from the first poll: see the `example`s below.) -/
+theorem C07_delay_prompt_fifo (d : Nat) (evs : List TW.Ev) (hp : Del.Prompt (evs ++ [TW.Ev.run]))
+    (he : (Del.ghost (evs ++ [TW.Ev.run])).err = none) :
+    ((evs ++ [TW.Ev.run]).foldl TW.step ((C07_delay_world d).step .sub)).log =
+      ((Del.ghost (evs ++ [TW.Ev.run])).q.filter
+        (fun st => decide (st.te + d ≤ (Del.ghost (evs ++ [TW.Ev.run])).clock))).map (·.n) ∧
+    (Del.ghost (evs ++ [TW.Ev.run])).q.map (·.n) = gate (script (evs ++ [TW.Ev.run])) := by
+  have hall : ∀ e ∈ evs, FifoEv e := fun e h => hp.fifo e (List.mem_append_left _ h)
+  obtain ⟨h1, h2, _⟩ := C07_delay_after_run d evs hall he
+  refine ⟨?_, h2⟩
+  rw [h1]
+  congr 1
+  apply List.filter_congr
+  intro st hst
+  simp [Del.Stamp.delivered, Del.prompt_stamps _ hp st hst]
+
+/-- `delay 0` right after a `run`, source not failed: everything has been delivered (as for `observe_on`). -/
+theorem C07_delay0_fifo (evs : List TW.Ev) (h : ∀ e ∈ evs, FifoEv e)
+    (he : (Del.ghost (evs ++ [TW.Ev.run])).err = none) :
+    ((evs ++ [TW.Ev.run]).foldl TW.step ((C07_delay_world 0).step .sub)).log
+      = gate (script (evs ++ [TW.Ev.run])) :=
+  Del.delay0_all evs h he
+
+/-- Never early: every delivered notification (by `C07_delay_fifo` the log consists of the
+    delivered stamps) was emitted at least `d` before the current clock.  Since this holds
+    after every history, it holds at the moment of delivery. -/
+theorem C07_delay_never_early (d : Nat) (evs : List TW.Ev) (h : ∀ e ∈ evs, FifoEv e) :
+    ∀ st ∈ (Del.ghost evs).q, st.delivered d (Del.ghost evs).horizon = true →
+      st.te + d ≤ (evs.foldl TW.step ((C07_delay_world d).step .sub)).sched.now := by
+  have hc : (evs.foldl TW.step ((C07_delay_world d).step .sub)).sched.now = (Del.ghost evs).clock :=
+    (Del.delay_log d evs h).2
+  rw [hc]
+  exact Del.never_early d evs h
+
+/-- Non-vacuity: two items, `run` (timers armed at 0), time advances to the delay, `run`. -/
+example :
+    ([TW.Ev.sub, .emit 0 (.next (.int 1)), .emit 0 (.next (.int 2)), .run, .adv 5, .run].foldl TW.step
+      (C07_delay_world 5)).log = [.next (.int 1), .next (.int 2)] := by decide
+
+/-- … one tick less: nothing yet. -/
+example :
+    ([TW.Ev.sub, .emit 0 (.next (.int 1)), .emit 0 (.next (.int 2)), .run, .adv 4, .run].foldl TW.step
+      (C07_delay_world 5)).log = [] := by decide
+
+/-- The delay counts from the task's first poll, not from the emission: emitted at 0, first
+    polled at 5, so at clock 10 = emission + d the item has NOT been delivered; at 15 it has. -/
+example :
+    ([TW.Ev.sub, .emit 0 (.next (.int 1)), .adv 5, .run, .adv 5, .run].foldl TW.step
+      (C07_delay_world 10)).log = [] := by decide
+example :
+    ([TW.Ev.sub, .emit 0 (.next (.int 1)), .adv 5, .run, .adv 5, .run, .adv 5, .run].foldl TW.step
+      (C07_delay_world 10)).log = [.next (.int 1)] := by decide
+
+/-- Prompt executor: delivered exactly at emission clock + d. -/
+example :
+    ([TW.Ev.sub, .emit 0 (.next (.int 1)), .run, .adv 2, .emit 0 (.next (.int 2)), .run, .adv 3, .run].foldl
+      TW.step (C07_delay_world 5)).log = [.next (.int 1)] := by decide
+
+/-- An error overtakes and cuts off the pending items. -/
+example :
+    ([TW.Ev.sub, .emit 0 (.next (.int 1)), .run, .emit 0 (.error 7), .adv 9, .run].foldl TW.step
+      (C07_delay_world 5)).log = [.error 7] := by decide
 
 end Rx.T
